@@ -108,8 +108,14 @@ def main(ctx, replay=None):
                 settings["NT"] = settings["NTV"]                  # square tables: a transposed table has the right shape
             elif n % 4 == 3:
                 settings["NT"] = settings["NTV"] - 4              # (QHA's internal temperature grid has four extra rows)
-            ds = free_dataset(rng, extra_shear=int(rng.integers(0, 5)), settings=settings) if n % 2 == 0 else \
+            ds = free_dataset(rng, extra_shear=int(rng.integers(1, 5)), settings=settings) if n % 2 == 0 else \
                 system_dataset(rng, exports, str(rng.choice(fillspec.SYSTEMS[1:])), settings=settings)
+            if n % 2 == 0:
+                # one listed component that is tiny without vanishing (1e-5 GPa): it has its files like every other
+                zk = [k for k in ds.keys if k[0] != k[1] and (k[0] > 3 or k[1] > 3)]
+                if zk:
+                    k = zk[int(rng.integers(0, len(zk)))]
+                    ds.polys[k] = tuple(x * 5e-7 for x in ds.polys[k])
             d = wd.sub(f"set{n}")
             ds.fit_pressure_window(d)
             if n % 3 == 2:
